@@ -47,8 +47,13 @@ def stale_handle_pattern(sig, r, beh):
 
 
 def check(tier, replay):
+    rep = vlib.Report("C01", tier, "model_checking")
+    model_flow("C01", tier, replay, spec="Bulk.tla", mods="ops_bulk", trace=("Trace_Bulk.tla", "Trace_Bulk.cfg"), mc=[],
+               gens=[("bulk: linked-block elements with 1/16/100-byte blocks and 1/4/16 block ids per table; single writes spanning hundreds of blocks and several tables", "Gen_Bulk.tla", "Gen_Bulk_hl.cfg", "cover", {})],
+               mutators={"BulkVS", "BulkSD", "BulkHL"}, rep=rep, finish=False, part="bulk", tv_quick=1000, drive_timeout=600,
+               assumptions=["bulk part (specs/Bulk.tla): parameter sets around the internal staging thresholds; values by formula, every cell read back is compared by the driver"])
     return model_flow(
-        "C01", tier, replay, spec="HElem.tla", mods="ops_h", trace=("Trace_HElem.tla", "Trace_HElem.cfg"),
+        "C01", tier, replay, rep=rep, spec="HElem.tla", mods="ops_h", trace=("Trace_HElem.tla", "Trace_HElem.cfg"),
         mc=[("MC_HElem.tla", "MC_HElem_a.cfg"), ("MC_HElem.tla", "MC_HElem_b.cfg")],
         gens=[("transition cover 2 keys x 2 handles", "Gen_HElem.tla", "Gen_HElem_cover.cfg", "cover", {"sample": 25000}),
               ("transition cover ndds 5/16, other block sizes", "Gen_HElem.tla", "Gen_HElem_cover2.cfg", "cover", {"sample": 10000}),
